@@ -72,7 +72,7 @@ def off_removes(ctx):
     f = m.method(RLH, 'set_conn_level', inherited=False)
     ctx.analysed(f)
     cfg = CFG(f.node, m, f.module)
-    offtests = [n for n in cfg.nodes if n.kind == 'test' and any(op == '==' and 'OFF' in (l, r) for l, op, r in compare_ops(n.ast))]
+    offtests = [n for n in cfg.nodes if n.kind == 'test' and any(op in ('==', '!=') and 'OFF' in (l, r) for l, op, r in compare_ops(n.ast))]
     pops = [c for c in calls_in(f.node) if call_attr(c) in ('pop',) and c.args and src(c.args[0]) == 'conn']
     dels = [n for n in body_walk(f.node) if isinstance(n, ast.Delete) and any(isinstance(t, ast.Subscript) and src(t.slice) == 'conn' for t in n.targets)]
     stores = [n for n in body_walk(f.node) if isinstance(n, ast.Subscript) and isinstance(n.ctx, ast.Store)]
@@ -82,6 +82,8 @@ def off_removes(ctx):
     t = offtests[0]
     on_t = cfg.reach([t.id], labels={'T'}, avoid=[t.id])
     on_f = cfg.reach([t.id], labels={'F'}, avoid=[t.id])
+    if any(op == '!=' for l, op, r in compare_ops(t.ast)):
+        on_t, on_f = on_f, on_t      # `if level != OFF:` - the OFF branch is the false branch
     rem_ids = {i for c in pops + dels for i in cfg.node_of(c)}
     ctx.check(bool(rem_ids & on_t) and not (rem_ids & on_f - on_t), f'{f.qualname}:OFF removes the entry', t.ast,
               'the OFF branch pops/deletes the entry of conn', 'the OFF branch does not remove the entry of this connection', f)
